@@ -3,7 +3,7 @@
 # For each kept seeded change: apply its patch to a scratch copy, run its demonstration there (must fail), run the quick
 # checks named in meta.json ("checks", default: the property's own check) and print which ones report a violation.
 cd "$(dirname "$0")/.."
-ids="${*:-$(ls seeded | grep -v RESULTS)}"
+ids="${*:-$(ls seeded | grep -v RESULTS | grep -v "\.log$" | grep -v "^_")}"
 for id in $ids; do
   d="seeded/$id"
   [ -f "$d/patch.diff" ] || continue
